@@ -22,16 +22,19 @@ type Rd<'a> = EndianSlice<'a, RunTimeEndian>;
 
 // ---------------------------------------------------------------- storages
 
+#[derive(PartialEq, Eq)]
 struct St<const R: usize, const N: usize>;
 impl<T: gimli::ReaderOffset, const R: usize, const N: usize> UnwindContextStorage<T> for St<R, N> {
     type Rules = [(Register, RegisterRule<T>); N];
     type Stack = [UnwindTableRow<T, Self>; R];
 }
+#[derive(PartialEq, Eq)]
 struct StBox<const R: usize, const N: usize>;
 impl<T: gimli::ReaderOffset, const R: usize, const N: usize> UnwindContextStorage<T> for StBox<R, N> {
     type Rules = [(Register, RegisterRule<T>); N];
     type Stack = Box<[UnwindTableRow<T, Self>; R]>;
 }
+#[derive(PartialEq, Eq)]
 struct StVec;
 impl<T: gimli::ReaderOffset> UnwindContextStorage<T> for StVec {
     type Rules = Vec<(Register, RegisterRule<T>)>;
@@ -1040,6 +1043,368 @@ fn ix_list(s: &str) -> Option<Vec<usize>> {
     s.split(',').map(|t| t.parse::<usize>().ok().filter(|n| *n < ALPHABET.len())).collect()
 }
 
+// ---------------------------------------------------------------- compiler-built corpus vs readelf -wF
+
+const CORPUS_C: &str = r#"
+#include <stdarg.h>
+extern int ext(int *, int);
+extern void ext2(void *);
+__attribute__((noinline)) int f1(int a, int b) { int x[64]; x[0] = a; return ext(x, b) + 1; }
+int f2(int n) { char *p = __builtin_alloca(n); ext2(p); return n; }
+int f3(int a, int b, int c) { if (a) { int big[5000]; big[0] = b; ext(big, c); return big[1]; } return ext(&a, b) * ext(&b, c) + ext(&c, a); }
+long f4(long a, long b, long c, long d, long e, long f) { long r = 0; for (long i = 0; i < a; i++) { r += ext((int*)&b, (int)i) * c + d * e - f; if (r > 100) { ext2(&r); return r; } } return r + a * b * c * d * e * f; }
+int f5(int n, ...) { va_list ap; va_start(ap, n); int s = 0; for (int i = 0; i < n; i++) s += va_arg(ap, int); va_end(ap); return s; }
+double f6(double *v, int n) { double s = 0; for (int i = 0; i < n; i++) { if (v[i] < 0) { ext2(v); continue; } s += v[i] * v[n - 1 - i]; } return s; }
+int f7(int a) { switch (a) { case 1: return ext(&a, 1); case 2: { int t[300]; t[0] = a; return ext(t, 2); } case 3: { char *p = __builtin_alloca(a * 16); ext2(p); return 3; } default: return a; } }
+struct big { long x[40]; };
+struct big f8(struct big b, int k) { b.x[k & 31] += ext((int *)&b, k); if (k > 3) { struct big c = f8(b, k - 1); c.x[0]++; return c; } return b; }
+"#;
+
+struct ElfSec {
+    addr: u64,
+    data: Vec<u8>,
+    is64: bool,
+}
+
+/// `.eh_frame` of a little-endian ELF file
+fn elf_eh_frame(f: &[u8]) -> Option<ElfSec> {
+    if f.len() < 0x40 || &f[..4] != b"\x7fELF" || f[5] != 1 {
+        return None;
+    }
+    let is64 = f[4] == 2;
+    let rd = |off: usize, n: usize| -> Option<u64> {
+        let b = f.get(off..off + n)?;
+        let mut v = 0u64;
+        for x in b.iter().rev() {
+            v = (v << 8) | *x as u64;
+        }
+        Some(v)
+    };
+    let (shoff, shentsize, shnum, shstrndx) =
+        if is64 { (rd(0x28, 8)?, rd(0x3a, 2)?, rd(0x3c, 2)?, rd(0x3e, 2)?) } else { (rd(0x20, 4)?, rd(0x2e, 2)?, rd(0x30, 2)?, rd(0x32, 2)?) };
+    let sh = |i: u64| -> Option<(u64, u64, u64, u64)> {
+        let b = (shoff + i * shentsize) as usize;
+        if is64 { Some((rd(b, 4)?, rd(b + 0x10, 8)?, rd(b + 0x18, 8)?, rd(b + 0x20, 8)?)) } else { Some((rd(b, 4)?, rd(b + 0x0c, 4)?, rd(b + 0x10, 4)?, rd(b + 0x14, 4)?)) }
+    };
+    let (_, _, stroff, strsize) = sh(shstrndx)?;
+    let strtab = f.get(stroff as usize..(stroff + strsize) as usize)?;
+    for i in 0..shnum {
+        let (name, addr, off, size) = sh(i)?;
+        let n = strtab.get(name as usize..)?;
+        let end = n.iter().position(|c| *c == 0)?;
+        if &n[..end] == b".eh_frame" {
+            return Some(ElfSec { addr, data: f.get(off as usize..(off + size) as usize)?.to_vec(), is64 });
+        }
+    }
+    None
+}
+
+struct CorpusFde {
+    caf: u64,
+    daf: i64,
+    cie_instrs: Vec<u8>,
+    initial: u64,
+    len: u64,
+    instrs: Vec<u8>,
+}
+
+/// hand parser of a little-endian `.eh_frame` with `zR`-style CIEs and pc-relative / absolute
+/// sdata4/udata4/absptr FDE addresses (what gcc and clang emit); anything else is skipped
+fn corpus_fdes(sec: &ElfSec) -> Vec<CorpusFde> {
+    let d = &sec.data;
+    let mut out = vec![];
+    let mut pos = 0usize;
+    // CIE offset -> (caf, daf, enc, instrs)
+    let mut cies: BTreeMap<usize, (u64, i64, u8, Vec<u8>)> = BTreeMap::new();
+    while pos + 8 <= d.len() {
+        let len = u32::from_le_bytes(d[pos..pos + 4].try_into().unwrap()) as usize;
+        if len == 0 || len >= 0xffff_fff0 || pos + 4 + len > d.len() {
+            break;
+        }
+        let body = &d[pos + 4..pos + 4 + len];
+        let id = u32::from_le_bytes(body[..4].try_into().unwrap()) as usize;
+        let mut c = Cur { b: body, p: 4 };
+        if id == 0 {
+            (|| {
+                let version = c.u8()?;
+                let aug_start = c.p;
+                while c.u8()? != 0 {}
+                let aug = body[aug_start..c.p - 1].to_vec();
+                let caf = c.uleb()?;
+                let daf = c.sleb()?;
+                if version == 1 {
+                    c.u8()?;
+                } else {
+                    c.uleb()?;
+                }
+                let mut enc = 0u8;
+                if aug.first() == Some(&b'z') {
+                    let alen = c.uleb()? as usize;
+                    let adata = body.get(c.p..c.p + alen)?;
+                    c.p += alen;
+                    let mut a = Cur { b: adata, p: 0 };
+                    for ch in &aug[1..] {
+                        match ch {
+                            b'R' => enc = a.u8()?,
+                            b'L' => {
+                                a.u8()?;
+                            }
+                            b'S' => {}
+                            _ => return None, // 'P' etc.: not needed for C
+                        }
+                    }
+                } else if !aug.is_empty() {
+                    return None;
+                }
+                cies.insert(pos, (caf, daf, enc, body[c.p..].to_vec()));
+                Some(())
+            })();
+        } else {
+            (|| {
+                let cie_off = (pos + 4).checked_sub(id)?;
+                let (caf, daf, enc, cie_instrs) = cies.get(&cie_off)?.clone();
+                let field = |c: &mut Cur, pcrel: bool| -> Option<u64> {
+                    let at = sec.addr + (pos + 4 + c.p) as u64;
+                    let v = match enc & 0x0f {
+                        0x00 => c.fixed(if sec.is64 { 8 } else { 4 }, false)?,
+                        0x03 => c.fixed(4, false)?,
+                        0x0b => c.fixed(4, false)? as u32 as i32 as i64 as u64,
+                        0x04 | 0x0c => c.fixed(8, false)?,
+                        _ => return None,
+                    };
+                    let mask = if sec.is64 { u64::MAX } else { 0xffff_ffff };
+                    Some(if pcrel && enc & 0x70 == 0x10 { at.wrapping_add(v) & mask } else { v & mask })
+                };
+                if enc & 0x70 != 0 && enc & 0x70 != 0x10 || enc & 0x80 != 0 {
+                    return None;
+                }
+                let initial = field(&mut c, true)?;
+                let len = field(&mut c, false)?;
+                let alen = c.uleb()? as usize;
+                c.p = c.p.checked_add(alen)?;
+                let instrs = body.get(c.p..)?.to_vec();
+                out.push(CorpusFde { caf, daf, cie_instrs, initial, len, instrs });
+                Some(())
+            })();
+        }
+        pos += 4 + len;
+    }
+    out
+}
+
+fn readelf_reg(name: &str, is64: bool) -> Option<u16> {
+    const R64: &[&str] = &["rax", "rdx", "rcx", "rbx", "rsi", "rdi", "rbp", "rsp", "r8", "r9", "r10", "r11", "r12", "r13", "r14", "r15", "rip"];
+    const R32: &[&str] = &["eax", "ecx", "edx", "ebx", "esp", "ebp", "esi", "edi", "eip"];
+    if name == "ra" {
+        return Some(if is64 { 16 } else { 8 });
+    }
+    let t = if is64 { R64 } else { R32 };
+    if let Some(i) = t.iter().position(|x| *x == name) {
+        return Some(i as u16);
+    }
+    if is64 {
+        if let Some(n) = name.strip_prefix("xmm") {
+            return n.parse::<u16>().ok().map(|n| 17 + n);
+        }
+    }
+    name.strip_prefix('r').and_then(|n| n.parse().ok())
+}
+
+/// `readelf -wF` tables keyed by (pc_begin, pc_end): rows `loc;cfa;reg=tok,reg=tok`
+fn readelf_tables(text: &str, is64: bool) -> BTreeMap<(u64, u64), Option<String>> {
+    let mut out = BTreeMap::new();
+    let lines: Vec<&str> = text.lines().collect();
+    let mut i = 0;
+    while i < lines.len() {
+        let l = lines[i];
+        i += 1;
+        let Some(k) = l.find(" FDE ") else { continue };
+        let Some(pcs) = l[k..].split("pc=").nth(1) else { continue };
+        let mut it = pcs.trim().split("..");
+        let (Some(a), Some(b)) = (it.next().and_then(|x| u64::from_str_radix(x, 16).ok()), it.next().and_then(|x| u64::from_str_radix(x.trim(), 16).ok())) else { continue };
+        if i >= lines.len() || !lines[i].trim_start().starts_with("LOC") {
+            out.insert((a, b), None);
+            continue;
+        }
+        let cols: Vec<&str> = lines[i].split_whitespace().skip(2).collect();
+        i += 1;
+        let regs: Option<Vec<u16>> = cols.iter().map(|c| readelf_reg(c, is64)).collect();
+        let mut rows = vec![];
+        let mut ok = regs.is_some();
+        while i < lines.len() && !lines[i].trim().is_empty() {
+            let t: Vec<&str> = lines[i].split_whitespace().collect();
+            i += 1;
+            if t.len() != cols.len() + 2 {
+                ok = false;
+                continue;
+            }
+            if let Some(regs) = &regs {
+                let rs: Vec<String> = regs.iter().zip(&t[2..]).map(|(r, v)| format!("{r}={v}")).collect();
+                let cfa = match t[1].rfind(|c| c == '+' || c == '-') {
+                    Some(k) if t[1] != "exp" => match readelf_reg(&t[1][..k], is64) {
+                        Some(r) => format!("{r}{}", &t[1][k..]),
+                        None => {
+                            ok = false;
+                            continue;
+                        }
+                    },
+                    _ => t[1].to_string(),
+                };
+                rows.push(format!("{};{};{}", u64::from_str_radix(t[0], 16).unwrap_or(u64::MAX), cfa, list_s(&rs, ",")));
+            }
+        }
+        out.insert((a, b), if ok && !rows.is_empty() { Some(rows.join("|")) } else { None });
+    }
+    out
+}
+
+/// compile the corpus with every available compiler / flag set, return `cfi-corpus` lines
+fn corpus_lines(emit: &mut dyn FnMut(String)) {
+    use std::process::Command;
+    let dir = format!("/var/tmp/gvh-c06-corpus-{}", std::process::id());
+    let _ = std::fs::create_dir_all(&dir);
+    let src = format!("{dir}/c.c");
+    if std::fs::write(&src, CORPUS_C).is_err() {
+        return;
+    }
+    let variants: &[(&str, &[&str])] = &[
+        ("gcc", &["-O2"]),
+        ("gcc", &["-O0"]),
+        ("gcc", &["-Os", "-fno-omit-frame-pointer"]),
+        ("gcc", &["-O2", "-m32"]),
+        ("gcc", &["-O1", "-m32", "-fno-omit-frame-pointer"]),
+        ("clang", &["-O2"]),
+        ("clang", &["-O0"]),
+        ("clang", &["-Os", "-fno-omit-frame-pointer"]),
+    ];
+    for (k, (cc, flags)) in variants.iter().enumerate() {
+        let so = format!("{dir}/v{k}.so");
+        let st = Command::new(cc).args(*flags).args(["-shared", "-fPIC", "-nostdlib", "-fasynchronous-unwind-tables", "-o", &so, &src]).stderr(std::process::Stdio::null()).status();
+        if !matches!(st, Ok(s) if s.success()) {
+            continue;
+        }
+        let Ok(bytes) = std::fs::read(&so) else { continue };
+        let Some(sec) = elf_eh_frame(&bytes) else { continue };
+        let Ok(o) = Command::new("readelf").args(["-wF", &so]).output() else { continue };
+        let tables = readelf_tables(&String::from_utf8_lossy(&o.stdout), sec.is64);
+        for f in corpus_fdes(&sec) {
+            let Some(Some(expected)) = tables.get(&(f.initial, f.initial.wrapping_add(f.len))) else { continue };
+            let (asz, enc) = if sec.is64 { (8u8, 4u8) } else { (4u8, 3u8) };
+            let mut addrs = vec![];
+            enc_value(&mut addrs, enc, f.initial, false, asz);
+            enc_value(&mut addrs, enc, f.len, false, asz);
+            emit(format!(
+                "cfi-corpus release eh le {asz} {enc} default heap -,-,- {} {} {} {} {} {}",
+                f.caf,
+                f.daf,
+                hex(&f.cie_instrs),
+                hex(&addrs),
+                hex(&f.instrs),
+                expected
+            ));
+        }
+    }
+    let _ = std::fs::remove_dir_all(&dir);
+}
+
+/// compare the implementation's rows (canonical text) with a `readelf -wF` table
+fn readelf_verdict(reply: &str, expected: &str) -> Option<String> {
+    let mut it = reply.splitn(2, ' ');
+    if it.next() != Some("ok") {
+        return Some(format!("readelf has a table, implementation says {}", reply.split(' ').take(2).collect::<Vec<_>>().join(" ")));
+    }
+    let rows: Vec<&str> = it.next().unwrap_or("").split('|').collect();
+    let exp: Vec<&str> = expected.split('|').collect();
+    // readelf prints one line per row-creating instruction, like gimli; rows of zero length appear in both
+    if rows.len() != exp.len() {
+        return Some(format!("readelf has {} rows, implementation {}", exp.len(), rows.len()));
+    }
+    for (k, (r, e)) in rows.iter().zip(&exp).enumerate() {
+        let rf: Vec<&str> = r.split(',').collect(); // start,end,cfa,args,rules
+        let ef: Vec<&str> = e.split(';').collect(); // loc;cfa;regs
+        if rf.len() != 5 || ef.len() != 3 {
+            return Some(format!("unparsable row {k}"));
+        }
+        if rf[0] != ef[0] {
+            return Some(format!("row {k} starts at {} but readelf says {}", rf[0], ef[0]));
+        }
+        // cfa
+        let cfa_ok = if let Some(x) = rf[2].strip_prefix("ro:") {
+            let mut p = x.split(':');
+            let (reg, off) = (p.next().unwrap_or(""), p.next().unwrap_or("").parse::<i64>().unwrap_or(i64::MIN));
+            ef[1] == format!("{reg}{}{}", if off < 0 { "-" } else { "+" }, off.unsigned_abs())
+        } else {
+            ef[1] == "exp"
+        };
+        if !cfa_ok {
+            return Some(format!("row {k} CFA {} but readelf says {}", rf[2], ef[1]));
+        }
+        // register columns
+        let mine: BTreeMap<&str, &str> = if rf[4] == "-" { BTreeMap::new() } else { rf[4].split(';').filter_map(|kv| kv.split_once('=')).collect() };
+        let theirs: BTreeMap<&str, &str> = if ef[2] == "-" { BTreeMap::new() } else { ef[2].split(',').filter_map(|kv| kv.split_once('=')).collect() };
+        for (reg, tok) in &theirs {
+            let m = mine.get(reg).copied();
+            let ok = match (*tok, m) {
+                ("u", None) | ("u", Some("U")) => true,
+                ("s", Some("S")) => true,
+                ("exp", Some(x)) => x.starts_with('E'),
+                ("vexp", Some(x)) => x.starts_with('X'),
+                (t, Some(x)) if t.starts_with("c+") || t.starts_with("c-") => x.strip_prefix('O').and_then(|n| n.parse::<i64>().ok()) == t[1..].parse::<i64>().ok(),
+                (t, Some(x)) if t.starts_with("v+") || t.starts_with("v-") => x.strip_prefix('V').and_then(|n| n.parse::<i64>().ok()) == t[1..].parse::<i64>().ok(),
+                _ => false,
+            };
+            if !ok {
+                return Some(format!("row {k} register {reg}: {m:?} but readelf says {tok}"));
+            }
+        }
+        for reg in mine.keys() {
+            if !theirs.contains_key(reg) {
+                return Some(format!("row {k} has a rule for register {reg} that readelf does not list"));
+            }
+        }
+    }
+    None
+}
+
+// ---------------------------------------------------------------- row equality (RegisterRuleMap: PartialEq)
+
+/// last row of a program, cloned out of its context
+fn last_row_with<'a, Sec, St>(section: &Sec, bases: &BaseAddresses, fde: &FrameDescriptionEntry<Rd<'a>>, cap: usize) -> Option<UnwindTableRow<usize, St>>
+where
+    Sec: UnwindSection<Rd<'a>>,
+    St: UnwindContextStorage<usize>,
+{
+    let mut ctx: Box<UnwindContext<usize, St>> = Box::new(UnwindContext::new_in());
+    let mut table = fde.rows(section, bases, &mut ctx).ok()?;
+    let mut last = None;
+    for _ in 0..cap {
+        match table.next_row() {
+            Ok(Some(row)) => last = Some(row.clone()),
+            Ok(None) => return last,
+            Err(_) => return None,
+        }
+    }
+    None
+}
+
+/// `rowA == rowB` for the last rows of two programs (same addresses), plus both canonical texts
+fn roweq<St: UnwindContextStorage<usize> + PartialEq>(a: &Req, b: &Req) -> Option<(bool, String, String)> {
+    let (sa, oa) = a.build();
+    let (sb, ob) = b.build();
+    let mk = |bytes: &'_ [u8], q: &Req| {
+        let mut s = DebugFrame::new(unsafe { std::mem::transmute::<&[u8], &'static [u8]>(bytes) }, q.endian());
+        s.set_vendor(q.vendor());
+        s
+    };
+    let (da, db) = (mk(&sa, a), mk(&sb, b));
+    let bases = BaseAddresses::default();
+    let fa = da.fde_from_offset(&bases, gimli::DebugFrameOffset(oa), DebugFrame::cie_from_offset).ok()?;
+    let fb = db.fde_from_offset(&bases, gimli::DebugFrameOffset(ob), DebugFrame::cie_from_offset).ok()?;
+    let ra = last_row_with::<_, St>(&da, &bases, &fa, a.cie.len() + a.fde.len() + 4)?;
+    let rb = last_row_with::<_, St>(&db, &bases, &fb, b.cie.len() + b.fde.len() + 4)?;
+    Some((ra == rb, snapshot(&ra, &sa).text, snapshot(&rb, &sb).text))
+}
+
 // ---------------------------------------------------------------- handler
 
 pub fn handle(op: &str, a: &[&str]) -> Option<String> {
@@ -1056,6 +1421,31 @@ pub fn handle(op: &str, a: &[&str]) -> Option<String> {
             let q = mk_req(kind, endian, asz, enc, vendor, bases, caf, daf, cie, addrs, fde)?;
             let (r, v) = unwind_req(&q, storage)?;
             Some(with_oracle(r, v))
+        }
+        ("cfi-corpus", [_mode, kind, endian, asz, enc, vendor, storage, bases, caf, daf, cie, addrs, fde, expected]) => {
+            let q = mk_req(kind, endian, asz, enc, vendor, bases, caf, daf, cie, addrs, fde)?;
+            let (r, v) = unwind_req(&q, storage)?;
+            let v = v.or_else(|| readelf_verdict(&r, expected).map(|w| format!("readelf {w}")));
+            Some(with_oracle(r, v))
+        }
+        ("cfi-roweq", [_mode, storage, cie_a, fde_a, cie_b, fde_b]) => {
+            // two expression-free programs over the same FDE range; are their last rows `==`?
+            let mk = |cie: &str, fde: &str| mk_req("df", "le", "8", "-", "aarch64", "-,-,-", "1", "-8", cie, "00100000000000008000000000000000", fde);
+            let (a, b) = (mk(cie_a, fde_a)?, mk(cie_b, fde_b)?);
+            let r = match *storage {
+                "heap" => roweq::<StoreOnHeap>(&a, &b),
+                "vec" => roweq::<StVec>(&a, &b),
+                "a8x8" => roweq::<St<8, 8>>(&a, &b),
+                _ => return None,
+            };
+            Some(match r {
+                None => "err NoRow".to_string(),
+                Some((eq, ta, tb)) => {
+                    // PartialEq must be extensional: equal iff the canonical (sorted) texts are equal
+                    let o = if eq != (ta == tb) { Some(format!("roweq == says {eq} but rows are {ta} and {tb}")) } else { None };
+                    with_oracle(format!("ok {eq}"), o)
+                }
+            })
         }
         ("cfi-decode", [_mode, kind, endian, asz, enc, vendor, bases, cie, addrs, fde]) => {
             let q = mk_req(kind, endian, asz, enc, vendor, bases, "1", "1", cie, addrs, fde)?;
@@ -1817,6 +2207,55 @@ pub fn gen(ctx: &Ctx, emit: &mut dyn FnMut(String)) {
             }
         }
     }
+    // ---- F. `UnwindTableRow: PartialEq` (RegisterRuleMap::eq) on pairs of expression-free programs:
+    // a program and a reordering / perturbation of it
+    let mut rng = ctx.rng(0x0605);
+    for _ in 0..ctx.n(4_000, 60_000) {
+        let n = 1 + rng.below(7) as usize;
+        let mut instrs: Vec<Vec<u8>> = vec![];
+        for _ in 0..n {
+            let r = *rng.pick(&[1u8, 2, 3, 4, 5]);
+            instrs.push(match rng.below(8) {
+                0 => vec![0x80 | r, rng.below(3) as u8],
+                1 => vec![0x07, r],
+                2 => vec![0x08, r],
+                3 => vec![0x09, r, rng.below(3) as u8],
+                4 => vec![0xc0 | r],
+                5 => vec![0x2e, rng.below(3) as u8],
+                6 => vec![0x0c, 7, 8 + rng.below(2) as u8],
+                _ => vec![0x14, r, rng.below(3) as u8],
+            });
+        }
+        let mut other = instrs.clone();
+        match rng.below(4) {
+            0 => other.reverse(),
+            1 => {
+                let k = rng.below(n as u64) as usize;
+                other.remove(k);
+            }
+            2 => {
+                let (i, j) = (rng.below(n as u64) as usize, rng.below(n as u64) as usize);
+                other.swap(i, j);
+            }
+            _ => {
+                other.rotate_left(1);
+            }
+        }
+        let kc = rng.below(3).min(n as u64) as usize;
+        let ko = kc.min(other.len());
+        let st = *rng.pick(&["heap", "vec", "a8x8"]);
+        emit(format!(
+            "cfi-roweq release {st} {} {} {} {}",
+            hex(&instrs[..kc].concat()),
+            hex(&instrs[kc..].concat()),
+            hex(&other[..ko].concat()),
+            hex(&other[ko..].concat())
+        ));
+    }
+
+    // ---- E. compiler-built corpus: gimli's rows against `readelf -wF`
+    corpus_lines(emit);
+
     // zero-capacity stack: API misuse, both sides panic
     emit("cfi-unwind release df le 8 0 default a0x4 -,-,- 1 -8 - 00100000000000008000000000000000 41".into());
     emit("cfi-unwind release df le 8 0 default a1x0 -,-,- 1 -8 - 00100000000000008000000000000000 8101".into());
